@@ -4,6 +4,7 @@
 // ================================================================================================
 #![feature(allocator_api)]
 #![feature(sized_hierarchy)]
+#![feature(pattern)]
 #![allow(unused_imports, unused_variables, dead_code, unused_mut, unused_assignments, non_snake_case, unused_parens, unreachable_code, unreachable_patterns)]
 use vstd::prelude::*;
 use vstd::std_specs::cmp::PartialEqSpec;
@@ -169,8 +170,18 @@ pub uninterp spec fn as_ref_rel<S: core::marker::PointeeSized, T: core::marker::
 pub uninterp spec fn as_ref_bytes<S: core::marker::PointeeSized>(s: &S) -> Seq<u8>;
 pub broadcast axiom fn axiom_as_ref_bytes<S: core::marker::PointeeSized>(s: &S, r: &[u8])
     ensures #[trigger] as_ref_rel::<S, [u8]>(s, r) ==> r@ == as_ref_bytes(s);
+/// the same for `AsRef<str>`: the characters a value converts to are determined by the value; a string converts to itself
+pub uninterp spec fn as_ref_chars<S: core::marker::PointeeSized>(s: &S) -> Seq<char>;
+pub broadcast axiom fn axiom_as_ref_chars<S: core::marker::PointeeSized>(s: &S, r: &str)
+    ensures #[trigger] as_ref_rel::<S, str>(s, r) ==> r@ == as_ref_chars(s);
+pub broadcast axiom fn axiom_as_ref_chars_str(s: &&str)
+    ensures #[trigger] as_ref_chars::<&str>(s) == (*s)@;
+pub broadcast axiom fn axiom_as_ref_chars_string(s: &String)
+    ensures #[trigger] as_ref_chars::<String>(s) == s@;
+pub broadcast axiom fn axiom_as_ref_chars_string_ref(s: &&String)
+    ensures #[trigger] as_ref_chars::<&String>(s) == (*s)@;
 }
-pub use axr::{as_ref_rel, as_ref_bytes};
+pub use axr::{as_ref_rel, as_ref_bytes, as_ref_chars};
 #[verifier::external_trait_specification]
 pub trait ExAsRef<T: core::marker::PointeeSized>: core::marker::PointeeSized {
     type ExternalTraitSpecificationFor: core::convert::AsRef<T> + core::marker::PointeeSized;
@@ -181,6 +192,12 @@ pub assume_specification<T>[ std::option::Option::<std::option::Option<T>>::flat
     ensures r == (match o { Some(Some(x)) => Some(x), _ => None::<T> });
 pub assume_specification<'a, T: Copy>[ std::option::Option::<&'a T>::copied ](o: Option<&'a T>) -> (r: Option<T>)
     ensures r == (match o { Some(x) => Some(*x), None => None::<T> });
+/// `Vec::dedup`: consecutive repeats are removed -- the same elements remain, no more of them than before, and no two neighbours
+/// are equal (stated for element types whose `==` is structural equality)
+pub assume_specification<T: PartialEq, A: std::alloc::Allocator>[ std::vec::Vec::<T, A>::dedup ](v: &mut std::vec::Vec<T, A>)
+    ensures final(v)@.len() <= old(v)@.len(),
+        forall|x: T| final(v)@.contains(x) <==> old(v)@.contains(x),
+        forall|i: int| 0 <= i < final(v)@.len() - 1 ==> (#[trigger] final(v)@[i]) != final(v)@[i + 1];
 pub assume_specification<T: Default>[ core::mem::take::<T> ](dest: &mut T) -> (r: T)
     ensures r == *old(dest), call_ensures(T::default, (), *final(dest));
 pub assume_specification<T>[ <[T]>::reverse ](s: &mut [T])
